@@ -30,6 +30,7 @@ import (
 	"strings"
 	"sync"
 	"sync/atomic"
+	"syscall"
 	"testing"
 	"time"
 
@@ -719,6 +720,10 @@ type c01Env struct {
 	// configuration-sequence mode
 	handlers map[string]http.HandlerFunc
 	srcDir   string
+	hold     bool          // do not run the rebuild loop after a handler call (burst)
+	backup   []byte        // content of the list file a lifecycle step replaced
+	brokenAt string        // its path
+	stalled  chan struct{} // closed when the stalled rebuild has finished
 
 	// sequence / reload modes
 	cur        *c01Case
@@ -1144,7 +1149,7 @@ func (e *c01Env) run(fields []string) (obs []string) {
 
 		return obs
 	default:
-		if strings.HasPrefix(fields[0], "C01.c") {
+		if strings.HasPrefix(fields[0], "C01.c") || strings.HasPrefix(fields[0], "C02.c") {
 			return e.cfgRun(fields)
 		}
 		panic("unknown op " + fields[0])
@@ -1174,10 +1179,55 @@ func (e *c01Env) call(h http.HandlerFunc, method, url string, body any) (status 
 	r.Header.Set("Content-Type", "application/json")
 	w := httptest.NewRecorder()
 	h(w, r)
-	for e.f.VerifRunPendingRebuild() {
+	if !e.hold && e.stalled == nil {
+		e.drain()
 	}
 
 	return w.Code
+}
+
+// drain is the body of updatesLoop for pending rebuild tasks: receive one task,
+// run initFiltering, until the channel is empty.
+func (e *c01Env) drain() {
+	for e.f.VerifRunPendingRebuild() {
+	}
+}
+
+// listFile returns the stored file of the enabled list whose URL is source i.
+func (e *c01Env) listFile(i int) (path string, ok bool) {
+	r := httptest.NewRequest(http.MethodGet, "/control/filtering/status", nil)
+	w := httptest.NewRecorder()
+	e.handlers["/control/filtering/status"](w, r)
+	type fj struct {
+		URL     string `json:"url"`
+		ID      int64  `json:"id"`
+		Enabled bool   `json:"enabled"`
+	}
+	var st struct {
+		F []fj `json:"filters"`
+		W []fj `json:"whitelist_filters"`
+	}
+	if err := json.Unmarshal(w.Body.Bytes(), &st); err != nil {
+		panic(err)
+	}
+	for _, f := range append(st.F, st.W...) {
+		if f.URL == e.srcPath(i) && f.Enabled {
+			return filepath.Join(e.dataDir, "filters", strconv.FormatInt(f.ID, 10)+".txt"), true
+		}
+	}
+
+	return "", false
+}
+
+// restoreList puts the regular file back and completes a rebuild.
+func (e *c01Env) restoreList() {
+	_ = os.Remove(e.brokenAt)
+	if err := os.WriteFile(e.brokenAt, e.backup, 0o644); err != nil {
+		panic(err)
+	}
+	e.brokenAt, e.backup = "", nil
+	e.drain()
+	e.f.EnableFilters(false)
 }
 
 // cfgStatus renders what GET /control/filtering/status reports.
@@ -1242,8 +1292,111 @@ func c01Unhexes(fs []string) (l []string) {
 
 // cfgRun executes one line of a configuration sequence against ONE long-lived
 // DNSFilter + Server, through the real admin handlers.
+// unstall feeds the pipe so that the stalled rebuild finishes, then puts the file back.
+func (e *c01Env) unstall() {
+	w, err := os.OpenFile(e.brokenAt, os.O_RDWR, 0)
+	if err != nil {
+		panic(err)
+	}
+	_, _ = w.Write(e.backup)
+	_ = w.Close()
+	select {
+	case <-e.stalled:
+	case <-time.After(5 * time.Second):
+		panic("stalled rebuild did not finish")
+	}
+	e.stalled = nil
+	e.restoreList()
+}
+
 func (e *c01Env) cfgRun(f []string) (obs []string) {
-	switch f[0] {
+	if op := f[0][4:]; e.stalled != nil && op != "cq" && op != "cqa" && op != "cunstall" {
+		// Any further configuration call would block on the pipe as well: let the
+		// stalled rebuild finish first (the model does the same).
+		e.unstall()
+	}
+	switch f[0][4:] {
+	case "chold":
+		e.hold = vutil.UnB(f[1])
+
+		return []string{"ok"}
+	case "cdrain":
+		e.drain()
+
+		return []string{"ok"}
+	case "cbreak", "cstall":
+		// lifecycle: the stored file of an enabled list becomes unopenable (a
+		// symlink onto itself: ELOOP) or a named pipe (opening it blocks)
+		path, ok := e.listFile(vutil.Atoi(f[1]))
+		if !ok || e.brokenAt != "" {
+			return []string{"skip"}
+		}
+		data, err := os.ReadFile(path)
+		if err != nil {
+			panic(err)
+		}
+		e.backup, e.brokenAt = data, path
+		_ = os.Remove(path)
+		if f[0][4:] == "cbreak" {
+			if err = os.Symlink(path, path); err != nil {
+				panic(err)
+			}
+
+			return []string{"ok"}
+		}
+		if err = syscall.Mkfifo(path, 0o644); err != nil {
+			panic(err)
+		}
+		// a rebuild is requested through the API and the loop picks it up: it stalls opening the pipe
+		e.hold = true
+		rules := e.fconf.UserRules
+		if rules == nil {
+			rules = []string{}
+		}
+		e.call(e.handlers["/control/filtering/set_rules"], http.MethodPost, "/control/filtering/set_rules",
+			map[string]any{"rules": rules})
+		e.hold = false
+		e.stalled = make(chan struct{})
+		go func(done chan struct{}, flt *filtering.DNSFilter) {
+			defer close(done)
+			flt.VerifRunPendingRebuild()
+		}(e.stalled, e.f)
+		time.Sleep(20 * time.Millisecond)
+
+		return []string{"ok"}
+	case "cfix":
+		if e.brokenAt != "" {
+			e.restoreList()
+		}
+
+		return []string{"ok"}
+	case "cunstall":
+		if e.brokenAt == "" {
+			return []string{"ok"}
+		}
+		if e.stalled != nil {
+			e.unstall()
+		} else {
+			e.restoreList()
+		}
+
+		return []string{"ok"}
+	case "cqa":
+		if e.stalled == nil {
+			// the rebuild loop gets to run before the query (unless a rebuild is stalled)
+			e.drain()
+		}
+		qname, target := vutil.Unhex(f[1]), vutil.Unhex(f[3])
+		hdr := func(n string, t uint16) dns.RR_Header {
+			return dns.RR_Header{Name: n, Rrtype: t, Class: dns.ClassINET, Ttl: 60}
+		}
+		e.ups.rcode = dns.RcodeSuccess
+		e.ups.answer = []dns.RR{&dns.CNAME{Hdr: hdr(qname, dns.TypeCNAME), Target: target + "."},
+			&dns.A{Hdr: hdr(target+".", dns.TypeA), A: net.IPv4(192, 0, 2, 1).To4()}}
+
+		return e.query(e.cur.cip, qname, uint16(vutil.Atoi(f[2])))
+	}
+	switch "C01." + f[0][4:] {
 	case "C01.creset":
 		if e.wedged {
 			*e = *c01NewEnv(e.t, e.cacheSize)
@@ -1251,6 +1404,7 @@ func (e *c01Env) cfgRun(f []string) (obs []string) {
 		e.stopReload()
 		e.concurrent = false
 		e.storage = nil
+		e.hold, e.backup, e.brokenAt, e.stalled = false, nil, "", nil
 		e.srcDir = filepath.Join(e.dataDir, "sources")
 		_ = os.RemoveAll(e.srcDir)
 		_ = os.RemoveAll(filepath.Join(e.dataDir, "filters"))
@@ -1333,6 +1487,10 @@ func (e *c01Env) cfgRun(f []string) (obs []string) {
 
 		return e.cfgStatus(code)
 	case "C01.cq":
+		if e.stalled == nil {
+			// the rebuild loop gets to run before the query (unless a rebuild is stalled)
+			e.drain()
+		}
 		qname := vutil.Unhex(f[1])
 		e.ups.rcode = dns.RcodeSuccess
 		e.ups.answer = []dns.RR{&dns.TXT{Hdr: dns.RR_Header{Name: qname, Rrtype: dns.TypeTXT, Class: dns.ClassINET, Ttl: 60}, Txt: []string{"up"}}}
@@ -1344,6 +1502,11 @@ func (e *c01Env) cfgRun(f []string) (obs []string) {
 }
 
 var c01CfgDomains = []string{"ads.example.org", "tracker.net", "example.com", "cdn.tracker.net", "shop.example.com", "metrics.io"}
+
+// c01RsvSeq numbers the reserve domains: every generated list content carries one
+// rule for a domain nobody asks about until a lifecycle step needs a rule that
+// urlfilter has not fetched from the list file (and cached) before.
+var c01RsvSeq int
 
 func c01CfgContent(r *rand.Rand) (lines []string) {
 	switch r.IntN(7) {
@@ -1358,6 +1521,8 @@ func c01CfgContent(r *rand.Rand) (lines []string) {
 		d := vutil.Pick(r, c01CfgDomains)
 		lines = append(lines, vutil.Pick(r, []string{"||" + d + "^", "||" + d + "^", "0.0.0.0 " + d, "||" + d + "^$important", "@@||" + d + "^", d}))
 	}
+	c01RsvSeq++
+	lines = append(lines, "||rsv-"+strconv.Itoa(c01RsvSeq)+".example^")
 	if r.IntN(3) == 0 {
 		lines = append([]string{"! Title: generated", "# comment"}, lines...)
 	}
@@ -1373,124 +1538,207 @@ func c01Hexes(ls []string) (f []string) {
 	return f
 }
 
-// c01ConfigGen: per block a fresh filter, then a random walk over the admin
-// API (add / set_url enable-disable-change / remove / forced refresh with same
-// or changed contents / custom rules / filtering and protection switches),
-// each step followed by queries for the domains the lists are about.
-func c01ConfigGen(r *rand.Rand, emit vutil.Emit) {
-	blocks := vutil.N(150)
-	for b := 0; b < blocks; b++ {
-		line := []string{"C01.creset", strconv.Itoa(c01CfgSources)}
-		content := make([][]string, c01CfgSources)
-		for i := 0; i < c01CfgSources; i++ {
-			content[i] = c01CfgContent(r)
-			line = append(line, strconv.Itoa(len(content[i])))
-			line = append(line, c01Hexes(content[i])...)
-		}
-		emit(line...)
-		// a rough mirror of the configuration, only to aim the random walk
-		added := map[int]bool{} // source -> is allow list
-		present := func() (l []int) {
+// c01ConfigGenFor: per block a fresh filter, then a random walk over the admin
+// API (add / set_url enable-disable-change / remove / forced refresh with same,
+// changed or empty contents / custom rules / filtering and protection
+// switches), single calls or BURSTS of 2-4 calls before the rebuild loop runs,
+// and lifecycle steps (a rebuild that fails on an unopenable list file, a
+// rebuild stalled on a pipe), each followed by queries.  pfx is "C01" (request
+// stage: plain queries) or "C02" (response stage: the upstream answer reveals
+// the name via a CNAME).
+func c01ConfigGenFor(pfx string) func(r *rand.Rand, emit vutil.Emit) {
+	return func(r *rand.Rand, emit vutil.Emit) {
+		blocks := vutil.N(150)
+		op := func(name string, args ...string) { emit(append([]string{pfx + "." + name}, args...)...) }
+		for b := 0; b < blocks; b++ {
+			line := []string{strconv.Itoa(c01CfgSources)}
+			content := make([][]string, c01CfgSources)
 			for i := 0; i < c01CfgSources; i++ {
-				if _, ok := added[i]; ok {
-					l = append(l, i)
-				}
+				content[i] = c01CfgContent(r)
+				line = append(line, strconv.Itoa(len(content[i])))
+				line = append(line, c01Hexes(content[i])...)
 			}
-
-			return l
-		}
-		src := func() int { return r.IntN(c01CfgSources) }
-		known := func() int {
-			if p := present(); len(p) > 0 && r.IntN(8) > 0 {
-				return vutil.Pick(r, p)
-			}
-
-			return src()
-		}
-		kind := func(i int) string {
-			if w, ok := added[i]; ok && r.IntN(10) > 0 {
-				return vutil.B(w)
-			}
-
-			return vutil.B(r.IntN(4) == 0)
-		}
-		// domains the queries after a step are about
-		about := func(i int) (ds []string) {
-			for _, l := range content[i] {
-				for _, d := range c01CfgDomains {
-					if strings.Contains(l, d) {
-						ds = append(ds, d)
+			op("creset", line...)
+			// a rough mirror of the configuration, only to aim the random walk
+			added := map[int]bool{} // source -> is allow list
+			stored := map[int][]string{}
+			present := func() (l []int) {
+				for i := 0; i < c01CfgSources; i++ {
+					if _, ok := added[i]; ok {
+						l = append(l, i)
 					}
 				}
-			}
 
-			return ds
-		}
-		for step := 0; step < 24; step++ {
-			focus := -1
-			switch k := r.IntN(20); {
-			case k < 4 || step < 3:
-				i := src()
-				w := r.IntN(4) == 0
-				if _, ok := added[i]; !ok {
-					added[i] = w
-				}
-				focus = i
-				emit("C01.cadd", strconv.Itoa(i), vutil.B(w))
-			case k < 12:
-				// enable / disable (mostly keeping the URL), now and then a change of URL
-				i := known()
-				j := i
-				if r.IntN(6) == 0 {
-					j = src()
-				}
-				focus = j
-				emit("C01.cset", strconv.Itoa(i), kind(i), strconv.Itoa(j), vutil.B(r.IntN(2) == 0))
-				if w, ok := added[i]; ok && j != i {
-					if _, taken := added[j]; !taken {
-						delete(added, i)
-						added[j] = w
-					}
-				}
-			case k < 13:
-				i := known()
-				emit("C01.cremove", strconv.Itoa(i), kind(i))
-				delete(added, i)
-			case k < 15:
-				emit("C01.crefresh", vutil.B(r.IntN(4) == 0))
-			case k < 17:
-				i := known()
-				if r.IntN(3) > 0 {
-					content[i] = c01CfgContent(r)
-				}
-				focus = i
-				emit(append([]string{"C01.csrc", strconv.Itoa(i)}, c01Hexes(content[i])...)...)
-			case k < 18:
-				var rules []string
-				if r.IntN(3) > 0 {
-					rules = c01CfgContent(r)
-				}
-				emit(append([]string{"C01.crules"}, c01Hexes(rules)...)...)
-			case k < 19:
-				emit("C01.cfilt", vutil.B(r.IntN(4) > 0))
-			default:
-				emit("C01.cprot", vutil.B(r.IntN(4) > 0))
+				return l
 			}
-			for n := 1 + r.IntN(2); n > 0; n-- {
-				d := vutil.Pick(r, c01CfgDomains)
-				if focus >= 0 {
-					if ds := about(focus); len(ds) > 0 && r.IntN(4) > 0 {
-						d = vutil.Pick(r, ds)
+			src := func() int { return r.IntN(c01CfgSources) }
+			known := func() int {
+				if p := present(); len(p) > 0 && r.IntN(8) > 0 {
+					return vutil.Pick(r, p)
+				}
+
+				return src()
+			}
+			kind := func(i int) string {
+				if w, ok := added[i]; ok && r.IntN(10) > 0 {
+					return vutil.B(w)
+				}
+
+				return vutil.B(r.IntN(4) == 0)
+			}
+			// domains a list content is about (reserve domains only when asked)
+			about := func(lines []string, reserve bool) (ds []string) {
+				for _, l := range lines {
+					for _, d := range c01CfgDomains {
+						if strings.Contains(l, d) {
+							ds = append(ds, d)
+						}
+					}
+					if k := strings.Index(l, "rsv-"); reserve && k >= 0 {
+						ds = append(ds, strings.TrimSuffix(l[k:], "^"))
 					}
 				}
+
+				return ds
+			}
+			query := func(d string) {
 				if r.IntN(4) == 0 {
 					d = "www." + d
 				}
-				emit("C01.cq", vutil.Hex(d+"."), strconv.Itoa(int(vutil.Pick(r, []uint16{dns.TypeA, dns.TypeA, dns.TypeAAAA, dns.TypeTXT}))))
+				if pfx == "C02" {
+					// the name itself is clean; the upstream answer reveals d through a CNAME
+					op("cqa", vutil.Hex("site-"+strconv.Itoa(r.IntN(50))+".clean.example."), strconv.Itoa(int(vutil.Pick(r, []uint16{dns.TypeA, dns.TypeA, dns.TypeAAAA}))), vutil.Hex(d))
+
+					return
+				}
+				op("cq", vutil.Hex(d+"."), strconv.Itoa(int(vutil.Pick(r, []uint16{dns.TypeA, dns.TypeA, dns.TypeAAAA, dns.TypeTXT}))))
+			}
+			// one API call; returns the source it was about (or -1)
+			apiCall := func(early bool) (focus int) {
+				focus = -1
+				switch k := r.IntN(20); {
+				case k < 4 || early:
+					i := src()
+					w := r.IntN(4) == 0
+					if _, ok := added[i]; !ok {
+						added[i] = w
+						stored[i] = content[i]
+					}
+					focus = i
+					op("cadd", strconv.Itoa(i), vutil.B(w))
+				case k < 12:
+					i := known()
+					j := i
+					if r.IntN(6) == 0 {
+						j = src()
+					}
+					focus = j
+					op("cset", strconv.Itoa(i), kind(i), strconv.Itoa(j), vutil.B(r.IntN(2) == 0))
+					if w, ok := added[i]; ok && j != i {
+						if _, taken := added[j]; !taken {
+							delete(added, i)
+							added[j] = w
+						}
+					}
+					if _, ok := added[j]; ok {
+						stored[j] = content[j]
+					}
+				case k < 13:
+					i := known()
+					op("cremove", strconv.Itoa(i), kind(i))
+					delete(added, i)
+				case k < 15:
+					op("crefresh", vutil.B(r.IntN(4) == 0))
+					for _, i := range present() {
+						stored[i] = content[i]
+					}
+				case k < 17:
+					i := known()
+					if r.IntN(3) > 0 {
+						content[i] = c01CfgContent(r)
+					}
+					focus = i
+					op("csrc", append([]string{strconv.Itoa(i)}, c01Hexes(content[i])...)...)
+				case k < 18:
+					var rules []string
+					if r.IntN(3) > 0 {
+						rules = c01CfgContent(r)
+					}
+					op("crules", c01Hexes(rules)...)
+				case k < 19:
+					op("cfilt", vutil.B(r.IntN(4) > 0))
+				default:
+					op("cprot", vutil.B(r.IntN(4) > 0))
+				}
+
+				return focus
+			}
+			ask := func(focus int) {
+				for n := 1 + r.IntN(2); n > 0; n-- {
+					d := vutil.Pick(r, c01CfgDomains)
+					if focus >= 0 {
+						if ds := about(content[focus], false); len(ds) > 0 && r.IntN(4) > 0 {
+							d = vutil.Pick(r, ds)
+						}
+					}
+					query(d)
+				}
+			}
+			for step := 0; step < 20; step++ {
+				switch k := r.IntN(12); {
+				case k < 7 || step < 3:
+					ask(apiCall(step < 3))
+				case k < 10:
+					// a burst: several accepted changes before the rebuild loop gets to run
+					op("chold", "1")
+					focus := -1
+					for n := 2 + r.IntN(3); n > 0; n-- {
+						if f := apiCall(false); f >= 0 {
+							focus = f
+						}
+					}
+					op("cdrain")
+					op("chold", "0")
+					ask(focus)
+				default:
+					// lifecycle: the file of one enabled list becomes unopenable (the next rebuild
+					// fails) or a pipe (the next rebuild stalls); the rules of the last completed
+					// rebuild must stay in force, including rules never fetched from the files yet
+					p := present()
+					if len(p) == 0 {
+						ask(apiCall(false))
+
+						continue
+					}
+					victim := vutil.Pick(r, p)
+					stall := r.IntN(2) == 0
+					if stall {
+						op("cstall", strconv.Itoa(victim))
+					} else {
+						op("cbreak", strconv.Itoa(victim))
+						// a change that asks for a rebuild, which fails on the broken file
+						op("crules", c01Hexes(c01CfgContent(r))...)
+					}
+					for _, i := range p {
+						for _, d := range about(stored[i], true) {
+							if strings.HasPrefix(d, "rsv-") || r.IntN(3) == 0 {
+								query(d)
+							}
+						}
+					}
+					if stall {
+						op("cunstall")
+					} else {
+						op("cfix")
+					}
+					ask(victim)
+				}
 			}
 		}
 	}
 }
+
+func c01ConfigGen(r *rand.Rand, emit vutil.Emit) { c01ConfigGenFor("C01")(r, emit) }
 
 func TestVerifC01Config(t *testing.T) {
 	e := c01NewEnv(t, 0)
